@@ -3,7 +3,7 @@ from __future__ import annotations
 
 from typing import Dict, List, Optional
 
-from ..kit import caller_ok, Ctx, calls, calls_target, kw, loops, normal_paths, poly_of, rule, short, stores
+from ..kit import alloc_literal, caller_ok, Ctx, calls, calls_target, kw, loops, normal_paths, poly_of, rule, short, stores
 from ..paths import Event, Path
 from ..terms import NONE, Term, key, poly_key, strip_ver, to_poly, _padd
 from .c04 import writer_allowlist
@@ -96,6 +96,9 @@ def r2(ctx: Ctx) -> None:
 def r3(ctx: Ctx) -> None:
     for s in ctx.cg.sites_calling(UPD):
         ctx.check(caller_ok(ctx, s.caller, lambda g: g.qualname == HO), s.caller, s.node, f"caller of {UPD}", HO, s.caller.qualname)
+    # a matching round started anywhere else would make fills that nobody applies to the holdings
+    for s in ctx.cg.sites_calling("Market._execution"):
+        ctx.check(caller_ok(ctx, s.caller, lambda g: g.qualname == HO), s.caller, s.node, "caller of Market._execution (every round's fills must reach the holdings update)", HO, s.caller.qualname)
     f = ctx.func(HO)
     n = 0
     for p in ctx.paths(HO):
@@ -173,3 +176,35 @@ def r4(ctx: Ctx) -> None:
                     fn2 = f
             ctx.check(ok, fn2, node, f"use of asset_volumes in {fn2.qualname if fn2 else mi.name}", "element access / membership / len / read-only view (no alias, no hand-out)", "element access" if ok else f"the dictionary itself flows into a {how}")
     ctx.require(n >= 8, "fewer uses of asset_volumes than confirmed by reading")
+
+
+@rule("C05.R5", "what a matching round hands back is exactly the list of the fills it made, one record per executed pair", "T10 provenance of the returned list", floor=1)
+def r5(ctx: Ctx) -> None:
+    from ..kit import seq_value
+    from ..terms import normalise
+
+    q = "Market._execution"
+    f = ctx.func(q)
+    n = 0
+    for p in ctx.paths(q):
+        if p.exit[0] != "return" or p.exit[1] is None:
+            continue
+        made = [e for e in p.walk_events(True) if e.kind == "call" and calls_target(e, "Market._execute_orders")]
+        r = p.exit[1]
+        if not made:
+            lit = alloc_literal(p, r)
+            ok = lit is not None and lit[0] == "list" and len(lit[1]) == 0
+            ctx.check(ok, f, f.node, "a round without fills returns an empty list", "[]", short(lit if lit is not None else r)[:80])
+            continue
+        n += 1
+        comp = seq_value(p, r)
+        if comp is None:
+            comp = normalise(strip_ver(r))
+        ok = comp is not None and comp[0] == "comp" and comp[1] == "seq" and len(comp[3]) == 1 and not comp[3][0][2] and comp[2][0] == "call" and key(comp[2][1]).endswith("_execute_orders")
+        if ok:
+            ctx.holds(f, made[0].node, "the round returns the records of its own fills", "[self._execute_orders(...) for each pending pair]", short(comp)[:160])
+        elif not any(s_[0] == "call" and key(s_[1]).endswith("_execute_orders") for s_ in subterms(strip_ver(r))) and comp is not None and comp[0] != "comp":
+            ctx.violated(f, made[0].node, "the round returns the records of its own fills", "[self._execute_orders(...) for each pending pair]", f"the records made by _execute_orders are dropped and {short(r)[:120]} is returned instead (a stored list can hold other rounds' fills as well)")
+        else:
+            ctx.unrec(f, made[0].node, "the round returns the records of its own fills", "the way the returned list is built is not modelled", short(r)[:160])
+    ctx.require(n >= 1, f"{q}: no path that fills")
